@@ -35,7 +35,7 @@ MANIFEST = {
 
 FORMATS = ["srt", "webvtt", "dfxp", "sami", "microdvd"]
 POINTS = [0, 1000500, 2040000, 3999999, 5000000, 5001000, 8040000, 10000001, 3600000000, 86390000999]
-TOKENS = ["word", "two words", "&", "<", "x > y", "a -->", "&amp;", "\u00e9", "it's", '"q"', "&gt;&gt; NARRATOR", "a &lt; b", "a&nbsp;b", "&#65;", "kidding ;> bye", "R&D;>"]
+TOKENS = ["word", "two words", "&", "<", "x > y", "a -->", "&amp;", "\u00e9", "it's", '"q"', "&gt;&gt; NARRATOR", "a &lt; b", "a&nbsp;b", "&#65;", "kidding ;> bye", "R&D;>", "<i>Previously</i>", "press <c> to go on", "<v Bob> hi", "x <b and y> 2"]
 
 
 def bounds(tier):
